@@ -70,6 +70,7 @@ type c14Scenario struct {
 	Rotated     bool     `json:"refresh_signed_with_new_key,omitempty"`
 	BigLogin    bool     `json:"login_id_token_padded,omitempty"`
 	ExtraIssuer bool     `json:"bearer_token_of_extra_issuer,omitempty"`
+	Lenient     bool     `json:"profile_and_validate_endpoints_accept_any_token,omitempty"`
 	OIDC        bool     `json:"oidc"`
 }
 
@@ -107,6 +108,10 @@ func c14Scenarios() []*c14Scenario {
 		{Name: "refresh-split-session", Flow: "refresh", OIDC: true, Flags: with(oidc, "--cookie-refresh=1m", "--cookie-expire=1h"), Needs: []string{"token"}, BigLogin: true},
 		{Name: "validate-url-login", Flow: "login", Flags: kc, Needs: []string{"token", "validate"}},
 		{Name: "validate-url-revalidate", Flow: "revalidate", Flags: kc, Needs: []string{"validate"}, ServeNeeds: []string{"validate"}},
+		// a provider whose profile / validation endpoints answer 200 whatever bearer token they are shown
+		// (they exist): the proxy's own handling of the token answer is then all that stands between a
+		// token response without access_token and a session
+		{Name: "validate-url-login-lenient-endpoints", Flow: "login", Flags: kc, Needs: []string{"token", "validate"}, Lenient: true},
 	}
 }
 
@@ -212,7 +217,7 @@ func c14Alphabet(sc *c14Scenario, endpoint, grant string) []string {
 		if !sc.OIDC {
 			return append(out, "no-access-token", "access-token-number")
 		}
-		out = append(out, "no-id-token", "no-access-token", "expires-in-string", "expires-in-garbage",
+		out = append(out, "no-id-token", "no-access-token", "no-expires-in", "no-id-token+no-expires-in", "expires-in-zero", "expires-in-string", "expires-in-garbage",
 			"claims:aud-number", "claims:aud-object", "claims:aud-list-of-numbers", "claims:groups-object", "claims:email-number",
 			"claims:exp-string", "claims:exp-garbage", "claims:email-verified-string", "claims:nonce-number", "claims:nonce-mismatch")
 		if sc.CustomAud {
@@ -245,7 +250,9 @@ func c14Class(sc *c14Scenario, endpoint, grant, kind string) int {
 	case "oversized-8MiB", "expires-in-string", "claims:groups-object", "claims:email-number", "claims:exp-string",
 		"claims:email-verified-string", "userinfo-email-number":
 		return c14Ambiguous
-	case "no-id-token":
+	case "no-expires-in", "expires-in-zero":
+		return c14Benign // RFC 6749 5.1: expires_in is RECOMMENDED, not required
+	case "no-id-token", "no-id-token+no-expires-in":
 		if grant == "refresh_token" { // OIDC Core 12.2: a refresh response need not carry an ID token
 			return c14Ambiguous
 		}
@@ -273,7 +280,7 @@ func c14Family(kind string) string {
 		return "transport-failure"
 	case "200-empty", "truncated-json", "text-plain", "oversized-8MiB", "userinfo-json-array", "jwks-garbage-keys", "expires-in-garbage":
 		return "malformed-body"
-	case "no-id-token", "no-access-token", "userinfo-no-email", "jwks-no-keys", "discovery-no-endpoints":
+	case "no-id-token", "no-access-token", "userinfo-no-email", "jwks-no-keys", "discovery-no-endpoints", "no-expires-in", "no-id-token+no-expires-in", "expires-in-zero":
 		return "missing-field"
 	case "jwks-wrong-key", "discovery-issuer-mismatch", "claims:nonce-mismatch", "bigger-tokens+nonce-mismatch":
 		return "wrong-value"
@@ -476,6 +483,11 @@ func (e *c14Exec) intercept(cl *world.Call, req *http.Request) *world.Fault {
 	rec := &c14Call{Step: e.step, Endpoint: cl.Endpoint, Grant: cl.Grant, cl: cl}
 	e.calls = append(e.calls, rec)
 	healthy := func() *world.Fault {
+		if e.sc.Lenient && (cl.Endpoint == "validate" || cl.Endpoint == "userinfo") {
+			return &world.Fault{Kind: "well-formed(lenient endpoint)", Respond: func(req *http.Request, _ func() *http.Response) (*http.Response, error) {
+				return world.RawResponse(req, 200, "application/json", []byte(`{"sub":"alice-sub","email":"alice@example.com","email_verified":true,"preferred_username":"alice","groups":["staff"]}`)), nil
+			}}
+		}
 		if e.rotated && cl.Endpoint == "jwks" {
 			// the provider's well-formed key set after the rotation: both key ids
 			body := c14JWKS(&world.KeyMain.PublicKey, "key-main", c14RotKid)
@@ -622,6 +634,12 @@ func (e *c14Exec) respond(kind, endpoint string) func(req *http.Request, healthy
 		}
 	case "no-id-token":
 		return edit(func(m map[string]any) { delete(m, "id_token") })
+	case "no-expires-in":
+		return edit(func(m map[string]any) { delete(m, "expires_in") })
+	case "expires-in-zero":
+		return edit(func(m map[string]any) { m["expires_in"] = 0 })
+	case "no-id-token+no-expires-in":
+		return edit(func(m map[string]any) { delete(m, "id_token"); delete(m, "expires_in") })
 	case "no-access-token":
 		return edit(func(m map[string]any) { delete(m, "access_token") })
 	case "access-token-number":
